@@ -48,6 +48,9 @@ def alphabet(N):
         ("GetInverseImage", np.array([0.0 if i % 2 else 0.25 for i in range(N)], dtype=np.double)),
         # the caller re-uses (overwrites in place) the arrays it once handed over as bounds: the object keeps its box
         ("CallerOverwritesItsBoundArrays", None),
+        # a box that is inverted in one coordinate: this version takes it as it is; a version that refuses it (raises)
+        # must leave the object with the box it had - either way the object answers like a fresh one with "its" box
+        ("SetBoundsMaybeRefused", ([b1[0][i] + 0.5 for i in range(N)], [b1[1][i] if i else b1[0][i] - 0.25 for i in range(N)])),
     ]
     return ops
 
@@ -67,6 +70,12 @@ def apply(ev, op):
         for a in getattr(ev, "_harness_handed_over", []):
             a[...] = a * 0.5 + 7.0
         return None, True
+    if name == "SetBoundsMaybeRefused":
+        try:
+            ev.SetBounds(arg[0], arg[1])
+            return "accepted", before == argbytes(arg)
+        except Exception:
+            return "refused", before == argbytes(arg)
     if name == "SetBounds":
         if isinstance(arg[0], np.ndarray):
             arg = (arg[0].copy(), arg[1].copy())
@@ -111,6 +120,12 @@ def execute(N, m, seq, ops, init="B1"):
             cur = (np.array(op[1][0], dtype=float), np.array(op[1][1], dtype=float))
         try:
             r, untouched = apply(ev, op)
+            if op[0] == "SetBoundsMaybeRefused":
+                if r == "accepted":
+                    cur = (np.array(op[1][0], dtype=float), np.array(op[1][1], dtype=float))
+                if not untouched:
+                    msgs.append(f"N={N} m={m}: {show(op)} modified its argument")
+                continue
         except Exception as e:
             msgs.append(f"N={N} m={m}: call {step + 1} {show(op)} after {[show(ops[j]) for j in seq[:step]]} raised "
                         f"{type(e).__name__}: {e}")
